@@ -30,6 +30,7 @@ ASSUMPTIONS = [
     "sympy evaluates Polar's returned expression correctly at integer n and rational parameter values",
     "n ranges over 0..N only (N=6..8 discrete, 3..4 continuous); all-n reach for an instance comes from chaining with C03/C04",
 ]
+UNINIT_COUNTERFACTUAL = True   # worker: unattributed violations are re-run with explicit initial assignments (diagnose.attribute_uninit)
 TIMEOUT = {"quick": 18, "thorough": 120}
 DEADLINE = {"quick": 80, "thorough": 1000}
 MIN_DECIDING = {"quick": 40, "thorough": 300}
